@@ -765,6 +765,9 @@ pub fn gen_label(rng: &mut Rng, taken: &[String]) -> String {
 const STR_BODIES: &[&str] = &[
     "", "a", "Hello, world!", "two words", "tab\\tnl\\n", "q\\\"uote", "back\\\\slash", "; not a comment",
     "x3000 #5 r0", "caf\u{e9}", "caf\u{e9}\\n", "\u{65e5}\u{672c}\\t!", "\u{e9}\\\\\u{e9}", "a\u{2713}\\\"b", "\u{2713} ok", "CR\\r", "  spaced  ", ".fill", "a:b,c", "0", "%!@#$^&*()",
+    // more bytes than characters, and statements longer than a table cell of the debugger
+    "\u{e4}\u{f6}\u{fc}\u{e4}\u{f6}\u{fc}\u{e4}\u{f6}\u{fc}\u{e4}\u{f6}\u{fc}", "\u{65e5}\u{672c}\u{8a9e}\u{65e5}\u{672c}\u{8a9e}\u{65e5}\u{672c}",
+    "a string literal that is longer than the cell", "sixteen chars ok",
 ];
 
 #[derive(Clone, Debug)]
@@ -945,6 +948,19 @@ pub fn gen_program(rng: &mut Rng, o: &GenOpts) -> Program {
     }
     if rng.chance(1, 2) {
         items.push(Item::End);
+        // `.end` ends the program text: well-formed statements parked behind it are not assembled
+        if rng.chance(1, 3) {
+            for k in 0..1 + rng.below(3) {
+                let stmt = match rng.below(4) {
+                    0 => Stmt::AddI(1, 1, 1),
+                    1 => Stmt::Fill(0x1234),
+                    2 => Stmt::Stringz("bye".into()),
+                    _ => Stmt::Alias(0x25),
+                };
+                let label = if k == 0 && rng.bool() { Some("zz_after_end".to_string()) } else { None };
+                items.push(Item::Stmt { label, stmt });
+            }
+        }
     }
     Program { items }
 }
